@@ -275,6 +275,12 @@ def rule_casts(run):
     for n in walk_local(w.node):
         if isinstance(n, ast.If) and "Operator.CONCAT" in P.T(n.test):
             found_concat = True
+            # every concatenation is converted: the branch depends on the operator alone (numeric_std `&` of two
+            # unsigned/signed operands yields unsigned/signed, not the std_logic_vector the result is declared as)
+            bare = isinstance(n.test, ast.Compare) and len(n.test.ops) == 1 and isinstance(n.test.ops[0], (ast.Is, ast.Eq)) and dotted(n.test.left) == "self._op"
+            outer = [a for a in vh.parents.ancestors(n) if isinstance(a, ast.If) and a is not n and any(x is n for b in a.body + a.orelse for x in ast.walk(b))]
+            run.ob(bare and not outer, "vhdl.BinOp.write[CONCAT]", file=vh.rel, line=n.lineno, detail="unconditional",
+                   expected="`if self._op is BinOp.Operator.CONCAT:` with no further condition", found=src(n.test)[:100] + (" (nested in another if)" if outer else ""))
             sides = {}
             for a in walk_local(n):
                 if isinstance(a, ast.Assign) and len(a.targets) == 1 and isinstance(a.value, ast.Attribute) and a.value.attr == "bitvector":
